@@ -68,7 +68,7 @@ class BuildFailure(Exception):
 def flight_context(events, idx):
     """The Deliver event (and program id) a rejected event belongs to."""
     i = idx - 1
-    while i >= 0 and events[i].get("ev") not in ("Deliver", "Reset"):
+    while i >= 0 and events[i].get("ev") not in ("Deliver", "Reset", "RemoteMsg"):
         i -= 1
     return events[i] if i >= 0 else {}
 
@@ -76,6 +76,8 @@ def flight_context(events, idx):
 def key_of(check, ev, ctx):
     if ev.get("ev") == "Lists":
         return "%s|lists" % check
+    if ev.get("ev") in ("RemoteMsg", "RemoteQueryReturn"):
+        return "%s|remote:%s:%s" % (check, ev.get("helper", "query"), ev.get("handle", ""))
     if ev.get("ev") == "Encode":
         return "%s|encode|%s" % (check, ev.get("kind"))
     if ctx.get("ev") == "Deliver":
